@@ -1,7 +1,10 @@
 package main
 
 import (
+	"errors"
 	"fmt"
+	"github.com/moov-io/iso8583"
+	iso8583errors "github.com/moov-io/iso8583/errors"
 	"strings"
 	"unicode/utf8"
 )
@@ -139,6 +142,43 @@ func genResurrection(r *Rng, g *gmsg) []*Sx {
 	if r.Chance(1, 3) {
 		ops = append(ops, op("pack"))
 	}
+	if r.Chance(1, 3) {
+		// instead of unsetting: an Unpack that fails inside the element, then one that succeeds without it - nothing the
+		// failed Unpack decoded may come back either
+		full := packMsgVals(g, map[int]*Sx{id: genFullValue(r, node)})
+		without := packMsgVals(g, map[int]*Sx{})
+		var cut []byte
+		if full != nil && without != nil && len(full) > 12 {
+			// a corruption in the last third that makes the Unpack fail below the top of the element
+			for attempt := 0; attempt < 30 && cut == nil; attempt++ {
+				m := append([]byte(nil), full...)
+				m[len(m)*2/3+r.Intn(len(m)-len(m)*2/3)] = byte(r.Intn(256))
+				probe := iso8583.NewMessage(buildMessageSpec(g.term))
+				if err := probe.Unpack(append([]byte(nil), m...)); err != nil {
+					var ue *iso8583errors.UnpackError
+					if errors.As(err, &ue) && len(ue.FieldIDs()) >= 2 {
+						cut = m
+					}
+				}
+			}
+		}
+		if cut != nil {
+			ops = append(ops, op("unpack", X(cut)), op("get"), op("unpack", X(without)), op("get"))
+			var build0 func(n *gnode, segs []string) *Sx
+			build0 = func(n *gnode, segs []string) *Sx {
+				if len(segs) == 0 || !n.comp {
+					return genSparseValue(r, n)
+				}
+				c, ok := n.subs[segs[0]]
+				if !ok {
+					return genSparseValue(r, n)
+				}
+				return L(A("C"), L(L(X([]byte(segs[0])), build0(c, segs[1:]))))
+			}
+			ops = append(ops, op("setval", I(id), build0(node, strings.Split(path, ".")[1:])), op("get"), op("pack"), op("json"), op("get"))
+			return ops
+		}
+	}
 	ops = append(ops, op("unsetp", X([]byte(path))), op("get"))
 	// re-populate along the unset path: walk the value down the path, then go sparse
 	var build func(n *gnode, segs []string) *Sx
@@ -245,7 +285,13 @@ func init() {
 		if err != nil {
 			panic(err)
 		}
-		p := func(s string) *Sx { x, err := parseSx(s); if err != nil { panic(s) }; return x }
+		p := func(s string) *Sx {
+			x, err := parseSx(s)
+			if err != nil {
+				panic(s)
+			}
+			return x
+		}
 		full := packedOf2(spec, []*Sx{p("(mti x30323030)"), p("(setval 2 (S x34323432))"), p("(setval 70 (C ((x31 (S x6162)) (x32 (C ((x31 (S x7a)) (x32 (N 7))))))))")})
 		small := packedOf2(spec, []*Sx{p("(mti x30313030)"), p("(setval 3 (N 5))")})
 		alphabet := []*Sx{
